@@ -211,7 +211,7 @@ impl Net {
         }
         if let WBody::Input { start, bytes, .. } = &w.body {
             // number of frames in the packet does not depend on the reference
-            let n = vh::codec_decode(&[], bytes).map(|v| v.len() as i32).unwrap_or(0);
+            let n = ref_frame_lens(bytes).map(|v| v.len() as i32).unwrap_or(0);
             if n > 0 {
                 if *start <= ls.max_frame_sent {
                     self.stats.input_retransmissions += 1;
@@ -363,9 +363,10 @@ pub struct SimSocket {
 }
 impl NonBlockingSocket<Addr> for SimSocket {
     fn send_to(&mut self, msg: &Message, addr: &Addr) {
-        self.net.borrow_mut().send(self.me, *addr, msg);
+        // harness code running inside a ggrs call: not part of what the allocation monitor measures
+        crate::alloc::outside(|| self.net.borrow_mut().send(self.me, *addr, msg));
     }
     fn receive_all_messages(&mut self) -> Vec<(Addr, Message)> {
-        self.net.borrow_mut().receive(self.me)
+        crate::alloc::outside(|| self.net.borrow_mut().receive(self.me))
     }
 }
